@@ -15,6 +15,25 @@
 (* afterwards: the complete interop content of every server (read directly *)
 (* from the server, not through a manager) and get_owned_* of every        *)
 (* registered manager.                                                     *)
+(*                                                                         *)
+(* Round 3 additions (value classes of the inputs and client behaviour):   *)
+(*  * e.pform \in {"plain","host"}: the instance path given to remove_* is *)
+(*    the path as the manager returned it, or the same path in the form the *)
+(*    server returns it from the *Names operations (with a host).  The      *)
+(*    requirement does not mention pform: both forms name the same server   *)
+(*    instance and must have the same effect.                              *)
+(*  * e.xcls \in {"plain","colon"}: class of the destination / filter ID of *)
+(*    an owned add.  An ID with ':' is either refused (ValueError, nothing  *)
+(*    created) or accepted and then owned like any other one.              *)
+(*  * client_mutate: the client changes a LIST the manager handed out       *)
+(*    (get_owned_* / get_all_*: clear, pop, extend with another list, ...). *)
+(*    Not a manager call: the truth and therefore every owned list stay.    *)
+(*  * iter_begin / iter_end: the client idiom                              *)
+(*      for inst in mgr.get_owned_X(sid): mgr.remove_X(sid, inst.path)      *)
+(*    iter_begin fixes the set of instances listed (= owned) at that time;  *)
+(*    the removals are ordinary remove_* events; iter_end carries the names *)
+(*    the loop body was given: all of the listed ones, whatever the manager *)
+(*    did to its bookkeeping in between.                                   *)
 (***************************************************************************)
 EXTENDS Naturals, Sequences, FiniteSets, TLC
 
@@ -24,7 +43,7 @@ Rng(q) == {q[i] : i \in DOMAIN q}
 Servers == {1, 2}
 EmptySrv == [d |-> {}, f |-> {}, s |-> {}]
 InitState == [srv |-> [sv \in Servers |-> EmptySrv], reg |-> {},
-              mid |-> << >>]
+              mid |-> << >>, iter |-> {}]
 
 DN(id, x) == "pywbemdestination:" \o id \o ":" \o x
 FN(id, x) == "pywbemfilter:" \o id \o ":" \o x
@@ -120,6 +139,16 @@ Foreign(s, e) ==
   THEN [sv EXCEPT !.d = @ \cup {[name |-> e.name, creator |-> "", url |-> e.url]}]
   ELSE [sv EXCEPT !.f = @ \cup {[name |-> e.name, creator |-> "", url |-> ""]}]
 
+(* an owned add whose ID contains ':' may be refused                        *)
+ColonRefusal(e) ==
+  IF e.owned /\ e.xcls = "colon" THEN {<<"ValueError", 0>>} ELSE {}
+
+(* names of the instances of kind k ("d","f","s") on sv owned by id         *)
+OwnedNames(sv, id, k) ==
+  CASE k = "d" -> {x.name : x \in {y \in sv.d : y.creator = id}}
+    [] k = "f" -> {x.name : x \in {y \in sv.f : y.creator = id}}
+    [] k = "s" -> {x.f \o "|" \o x.d : x \in {y \in sv.s : y.creator = id}}
+
 Effect(s, e) ==   \* <<admissible outcomes, new state>>
   CASE e.op = "new_manager" ->
          <<{<<"ok", 0>>},
@@ -129,9 +158,11 @@ Effect(s, e) ==   \* <<admissible outcomes, new state>>
     [] e.op = "add_server" ->
          <<{<<"ok", 0>>}, [s EXCEPT !.reg = @ \cup {<<e.m, e.sv>>}]>>
     [] e.op = "add_destination" ->
-         <<AddDest(s, e)[1], [s EXCEPT !.srv[e.sv] = AddDest(s, e)[2]]>>
+         <<AddDest(s, e)[1] \cup ColonRefusal(e),
+           [s EXCEPT !.srv[e.sv] = AddDest(s, e)[2]]>>
     [] e.op = "add_filter" ->
-         <<AddFilt(s, e)[1], [s EXCEPT !.srv[e.sv] = AddFilt(s, e)[2]]>>
+         <<AddFilt(s, e)[1] \cup ColonRefusal(e),
+           [s EXCEPT !.srv[e.sv] = AddFilt(s, e)[2]]>>
     [] e.op = "add_subscription" ->
          <<AddSub(s, e)[1], [s EXCEPT !.srv[e.sv] = AddSub(s, e)[2]]>>
     [] e.op = "remove_destination" ->
@@ -153,6 +184,11 @@ Effect(s, e) ==   \* <<admissible outcomes, new state>>
                      !.reg = {r \in @ : r[1] # e.m}]>>
     [] e.op = "foreign_create" ->
          <<{<<"ok", 0>>}, [s EXCEPT !.srv[e.sv] = Foreign(s, e)]>>
+    [] e.op = "client_mutate" -> <<{<<"ok", 0>>}, s>>
+    [] e.op = "iter_begin" ->
+         <<{<<"ok", 0>>},
+           [s EXCEPT !.iter = OwnedNames(s.srv[e.sv], Id(s, e.m), e.kind)]>>
+    [] e.op = "iter_end" -> <<{<<"ok", 0>>}, [s EXCEPT !.iter = {}]>>
 
 Succeeded(e) == e.res \in {"ok", "existing"}
 
@@ -195,6 +231,10 @@ Fails(s, e) ==
   Outcome(e.op, eff[1], e)
   \cup ContentFails(s2, e)
   \cup OwnedFails(s2, e)
+  \cup (IF e.op = "iter_end"
+        THEN F("IterateAndRemove.VisitsEveryListedInstance",
+               Rng(e.visited) = s.iter /\ Len(e.visited) = Cardinality(s.iter))
+        ELSE {})
   \cup F("OwnedLists.EveryRegisteredManagerObserved",
          \A r \in s2.reg : \E o \in Rng(e.owned_lists) : o.m = r[1] /\ o.sv = r[2])
 =============================================================================
